@@ -4822,6 +4822,8 @@ int64_t ExpressionEvaluator::evaluate_function_call_impl(const ASTNode *node) {
                     Variable ref_var;
                     ref_var.is_reference = true;
                     ref_var.is_assigned = true;
+                    // const T& パラメータ経由の変更を禁止できるよう修飾を保持
+                    ref_var.is_const = param->is_const;
                     ref_var.type = source_var->type;
                     ref_var.value = reinterpret_cast<int64_t>(source_var);
 
@@ -4845,6 +4847,10 @@ int64_t ExpressionEvaluator::evaluate_function_call_impl(const ASTNode *node) {
                         Variable *target_var =
                             reinterpret_cast<Variable *>(source_var->value);
                         ref_var.value = reinterpret_cast<int64_t>(target_var);
+                        // const T& をさらに参照渡しした場合も const を維持
+                        if (source_var->is_const) {
+                            ref_var.is_const = true;
+                        }
                         // 参照先の型情報も更新
                         ref_var.type = target_var->type;
                         ref_var.struct_type_name = target_var->struct_type_name;
